@@ -79,6 +79,10 @@ static std::string tok_vstack(const TMCG_Stack<VTMF_Card> &s) {
 	if (s.size() == 0) return "_";
 	std::string r; for (size_t i = 0; i < s.size(); i++) { if (i) r += ";"; r += tok_vcard(s[i]); } return r;
 }
+static std::string tok_tstack(const TMCG_Stack<TMCG_Card> &s) {
+	if (s.size() == 0) return "_";
+	std::string r; for (size_t i = 0; i < s.size(); i++) { if (i) r += "/"; r += tok_tcard(s[i]); } return r;
+}
 static std::string tok_vss(const TMCG_StackSecret<VTMF_CardSecret> &s) {
 	if (s.size() == 0) return "_";
 	std::string r; for (size_t i = 0; i < s.size(); i++) { if (i) r += ";"; r += hx((unsigned long)s[i].first) + "," + hx(s[i].second.r); } return r;
@@ -210,6 +214,11 @@ int main(int argc, char **argv) {
 		}
 		std::string s = exp(st); TMCG_Stack<TMCG_Card> d; bool ok = d.import(s);
 		if (!ok || !(d == st) || exp(d) != s) propfail("tstack-roundtrip", "TMCG_Stack<TMCG_Card> does not round-trip: " + s.substr(0, 200));
+		Rec("tstack_exp").t(tok_tstack(st)).b(s);
+		Rec("tstack_imp").t("_").b(s).t(ok ? tok_tstack(d) : "none");
+		{ TMCG_Stack<TMCG_Card> u; TMCG_Card c0(1 + gen().below(2), 1 + gen().below(2)); gen_int(&c0.z[0][0], 64); u.push(c0);   // import appends to a used stack
+		  std::string told = tok_tstack(u); bool ok2 = u.import(s); Rec("tstack_imp").t(told).b(s).t(ok2 ? tok_tstack(u) : "none");
+		  std::string mm = mutate(s); TMCG_Stack<TMCG_Card> e; ok2 = e.import(mm); Rec("tstack_imp").t("_").b(mm).t(ok2 ? tok_tstack(e) : "none"); }
 		s = exp(ss); TMCG_StackSecret<TMCG_CardSecret> dss; ok = dss.import(s);
 		if (!ok || exp(dss) != s) propfail("tstacksecret-roundtrip", "TMCG_StackSecret<TMCG_CardSecret> does not round-trip: " + s.substr(0, 200));
 	}
